@@ -42,6 +42,8 @@ constructor = XPath2Parser.constructor
 @constructor('ENTITY')
 @constructor('anyURI')
 def cast__string_types(self: XPathConstructor, value: ta.AtomicType) -> str | AnyURI:
+    if not isinstance(value, (str, UntypedAtomic, AnyURI)) and self.symbol != 'anyURI':
+        value = self.string_value(value)  # the XPath string form, not Python's str()
     try:
         result = cast(str | AnyURI, self.type_class.make(value))
     except ValueError as err:
